@@ -274,7 +274,7 @@ func checkC13(c *Check) {
 				if al, isA := st.Addr.(*ssa.Alloc); isA {
 					for _, g := range fnAndClosures(run)[1:] {
 						for _, c2 := range callsIn(g, false) {
-							if calleeMethod(c2) == "Broadcast" && strings.Contains(Sym(c2.Common().Args[len(c2.Common().Args)-1]), "fv:"+al.Comment) {
+							if calleeMethod(c2) == "Broadcast" && strings.Contains(Sym(c2.Common().Args[len(c2.Common().Args)-1]), "fv:"+allocPinnedName(al)) {
 								sent = true
 							}
 						}
